@@ -141,6 +141,18 @@ struct is_fixed_sequence_pack<T> {
 
 template<typename ... Ts>
 static constexpr bool is_fixed_sequence_pack_v = is_fixed_sequence_pack<Ts...>::value;
+
+template<typename ... T>
+struct is_immediate_sequence_pack {
+    static constexpr bool value = false;
+};
+template<size_t F, size_t L, size_t S, typename ... Ts>
+struct is_immediate_sequence_pack<iseq<F,L,S>,Ts...> {
+    static constexpr bool value = sizeof...(Ts)==0 ? true : is_immediate_sequence_pack<Ts...>::value;
+};
+
+template<typename ... Ts>
+static constexpr bool is_immediate_sequence_pack_v = is_immediate_sequence_pack<Ts...>::value;
 //----------------------------------------------------------------------------------------------------------//
 
 
